@@ -1,6 +1,10 @@
 #!/bin/sh
-# build the repository the way the baseline does (guard off) and run its 175 gtest cases
-set -e
+# Build the repository the way the baseline does (cmake/ninja in $R/_build, verification guard OFF: the
+# DSPLIB_VERIF define is never passed by cmake) and run its 175 gtest cases.  Exit status = test status.
 R=${VERIF_REPO:-/repo}
-cmake --build $R/_build 2>&1 | tail -2
-cd $R/_build/tests && ./dsplib-test 2>&1 | grep -E "^\[  (PASSED|FAILED)|tests ran|FAILED" | head -20
+cmake --build $R/_build 2>&1 | tail -2 || exit 2
+cd $R/_build/tests || exit 2
+./dsplib-test --gtest_output=xml:/tmp/dsplib-baseline.junit.xml > /tmp/dsplib-baseline.log 2>&1
+rc=$?
+grep -E "^\[  (PASSED|FAILED)|tests ran|FAILED" /tmp/dsplib-baseline.log | head -20
+exit $rc
